@@ -207,7 +207,11 @@ class DataFrameSchemaBackend(PandasSchemaBackend):
             # make sure the schema component mutations are reverted after
             # validation
             _orig_dtype = schema_component.dtype
-            _orig_coerce = schema_component.coerce
+            # the stored flag rather than the derived property: a MultiIndex
+            # reports coerce=True as soon as one of its levels coerces
+            _orig_coerce = getattr(
+                schema_component, "_coerce", schema_component.coerce
+            )
 
             try:
                 if schema.dtype is not None:
